@@ -116,3 +116,35 @@ def c16_guards(case):
         except Exception as e:
             bad.append(repr(e))
     return dict(reproduced=bool(bad), failing=bad)
+
+
+@reg('C15.intnodes')
+def intnodes(case):
+    import numdifftools.fornberg as fb
+    from ndvc.concrete import fd_weights_integer_cases
+    cnt, bad = fd_weights_integer_cases(fb)
+    return dict(reproduced=bool(bad), failing=bad[:3], cases=cnt, statement='weights for integer-typed nodes == weights for the same nodes as floats')
+
+
+@reg('C15.held')
+def held(case):
+    """tables returned earlier must not change when the function is called again"""
+    import numdifftools.fornberg as fb
+    bad = []
+    for m, n in [(3, 1), (4, 2), (5, 1)]:
+        xs = np.linspace(-1.0, 1.0, m) ** 3 + np.linspace(0, 0.3, m)
+        ys = xs[::-1] * 1.7 + 0.1
+        W1 = fb.fd_weights_all(xs, 0.1, n); keep = np.array(W1, copy=True)
+        r1 = fb.fd_weights(xs, 0.1, n); keep_r = np.array(r1, copy=True)
+        fb.fd_weights_all(ys, -0.2, n); fb.fd_weights(ys, -0.2, n)
+        if not (np.array_equal(W1, keep) and np.array_equal(r1, keep_r)):
+            bad.append(dict(m=m, n=n, table_before=keep.tolist(), same_table_after_another_call=np.asarray(W1).tolist()))
+    return dict(reproduced=bool(bad), failing=bad[:2], statement='a weight table held by the caller is unchanged by later calls')
+
+
+@reg('C16.grids')
+def c16_grids(case):
+    from numdifftools.fornberg import fd_derivative
+    from ndvc.concrete import fd_derivative_grid_cases
+    cnt, bad = fd_derivative_grid_cases(fd_derivative)
+    return dict(reproduced=bool(bad), failing=bad[:3], cases=cnt, statement='fd_derivative exact on polynomials of degree 2*(n//2+m) on every strictly monotone grid')
